@@ -95,6 +95,60 @@ CHECKS.update({
             'newline sequences have no self-overlap', '4/C16'),
 })
 
+CHECKS.update({
+    'C03': ('exploration',
+            'runtime monitoring: real reader on files produced by an '
+            'independent spec-derived generator (foreign layouts) vs the '
+            'spec reader model; single-defect catalogue applied to every '
+            'section',
+            'K foreign well-formed files (shuffled / dropped options, blank '
+            'lines, CRLF headers, 6 JSON layouts, no-encoding files, '
+            'line_endings on metadata) and every applicable defect x every '
+            'section of a sample of them.',
+            'logical lines exclude blank separators; newline look-alikes '
+            'only where the spec reading is unambiguous', '4/C03'),
+    'C05': ('exploration',
+            'runtime monitoring: trees built through the public API in '
+            'random order, snapshot oracle + spec serializer on the '
+            'snapshot + layout-derived expected parse',
+            'K random tree specifications incl. empty / absent sections '
+            'and unserialisable trees (skipped, counted).',
+            'JSON-representable metadata; normalisation = canonical header '
+            'options minus length', '4/C05'),
+    'C06': ('exploration',
+            'runtime monitoring: byte identity of parse->serialise on '
+            'canonical files; acceptance / contents / fixed-point oracle on '
+            'foreign files',
+            'K canonical recipes (writer and oracle bytes) and K foreign '
+            'serialisations with the liberties the property lists.',
+            'canonical quantifier = options as in C01 (indent >= 0); files '
+            'the object model rejects with its own error family are '
+            'outside the quantifier', '4/C06'),
+    'C12': ('exploration',
+            'metamorphic runtime monitoring: records with / without inserted '
+            'unknown options on the real reader',
+            'Every insertion position of a header, 1-3 extras on several '
+            'headers, the same extra on all headers, over K base files.',
+            'known option names are the eight the library handles', '4/C12'),
+    'C15': ('exploration',
+            'catalogue-exhaustive runtime monitoring: BOM-free newline model '
+            'vs the real helpers (also as icontract post-conditions in all '
+            'runs) + writer/serializer byte equality + reader round trip per '
+            'spelling',
+            'All catalogue codecs (43) x all accepted spellings (~730) x '
+            'unix/dos x a text set; thorough adds random texts.',
+            'stateless text codecs only; numeric spellings excluded',
+            '4/C15'),
+    'C17': ('exploration',
+            'metamorphic runtime monitoring + stream conservation monitor: '
+            'every padding 0..192 of the first header and every read-ahead '
+            'block size 1..192 (+ larger than file) on the real reader',
+            'K base files with long headers / lines; BytesIO and real files '
+            'with three buffering modes; position checked at every yield.',
+            'block size changed through _read_until.__defaults__ '
+            '(diagnostic handle)', '4/C17'),
+})
+
 NOT_YET = {}
 
 
